@@ -42,6 +42,9 @@ pub struct Parser {
     pub seeds: fn(&mut Rng) -> Vec<Seed>,
     /// auxiliary numbers the model of this cell needs (trained tables, CPU features); empty for most
     pub aux: fn() -> Vec<u64>,
+    /// the auxiliary numbers are large (a trained contextual encoder): they are defined once per case file
+    /// and parsed once (`cenv` in the shard header); the case carries this key (0 = inline aux)
+    pub env: u32,
 }
 pub fn no_aux() -> Vec<u64> { vec![] }
 
@@ -340,9 +343,10 @@ thread_local! {
         ContextualHuffmanEncoder::new(TRAIN, HuffmanOrder::Order1).unwrap(),
         ContextualHuffmanEncoder::new(TRAIN, HuffmanOrder::Order2).unwrap(),
     ];
+    // the decoders hold a copy (through serialize / deserialize) of the CTX instances, so that the
+    // tables the model is given (CTX[o].serialize()) are the tables the decoder uses
     static CTXDEC: Vec<ContextualHuffmanDecoder> = (0..3).map(|o| {
-        let order = [HuffmanOrder::Order0, HuffmanOrder::Order1, HuffmanOrder::Order2][o];
-        ContextualHuffmanDecoder::new(ContextualHuffmanEncoder::new(TRAIN, order).unwrap())
+        ContextualHuffmanDecoder::new(CTX.with(|c| ContextualHuffmanEncoder::deserialize(&c[o].serialize()).unwrap()))
     }).collect();
 }
 const PAYLOAD: &[u8] = &[0x5A, 0xC3, 0x00, 0xFF, 0x17, 0x88, 0x31, 0xE2, 0x4D, 0x90, 0x0F, 0xF0, 0xAA, 0x55, 0x01, 0x80];
@@ -368,6 +372,31 @@ fn p_ctx_decode_x<const N: usize>(b: &[u8], arg: u64) -> R {
             .map(|v| obs_bytes(&v)).map_err(es)
     })
 }
+fn b64v(v: Vec<u8>) -> Vec<u64> { v.into_iter().map(|x| x as u64).collect() }
+fn aux_huff() -> Vec<u64> { b64v(HUFF.with(|h| h.0.tree().serialize())) }
+fn aux_ctx<const O: usize>() -> Vec<u64> { b64v(CTX.with(|c| c[O].serialize())) }
+fn aux_ctx_mono<const O: usize>() -> Vec<u64> { b64v(CTX_MONO.with(|c| c[O].serialize())) }
+/// small hand-made contextual encoders (deserialize does not ask for complete alphabets): short enough
+/// for the Coq cases.  tree = [count u16][symbol, code_len, code bytes]*
+fn crafted_ctx() -> Vec<Vec<u8>> {
+    let t_abc: Vec<u8> = vec![3, 0, b'a', 1, 0b0, b'b', 2, 0b01, b'c', 2, 0b11];
+    let t_ab: Vec<u8> = vec![2, 0, b'a', 1, 0b1, b'b', 1, 0b0];
+    let t_one: Vec<u8> = vec![1, 0, b'z', 1, 0];
+    let t_long: Vec<u8> = vec![3, 0, 0x5A, 1, 0, 0xC3, 9, 0xFF, 0x00, 0x00, 14, 0xFD, 0x3F];
+    let mk = |order: u8, map: &[(u32, u32)], trees: &[&Vec<u8>]| -> Vec<u8> {
+        let mut v = vec![order];
+        v.extend_from_slice(&(trees.len() as u32).to_le_bytes());
+        v.extend_from_slice(&(map.len() as u32).to_le_bytes());
+        for (c, i) in map { v.extend_from_slice(&c.to_le_bytes()); v.extend_from_slice(&i.to_le_bytes()); }
+        for t in trees { v.extend_from_slice(&(t.len() as u32).to_le_bytes()); v.extend_from_slice(t); }
+        v
+    };
+    vec![
+        mk(1, &[(b'a' as u32, 1), (b'b' as u32, 2)], &[&t_abc, &t_ab, &t_one]),
+        mk(0, &[(0, 0)], &[&t_long]),
+        mk(2, &[((b'a' as u32) << 8 | b'b' as u32, 1), (0x5AC3, 0)], &[&t_long, &t_abc]),
+    ]
+}
 fn seeds_huff_tree(r: &mut Rng) -> Vec<Seed> {
     let mut v = vec![];
     for m in messages(r) { if let Ok(e) = HuffmanEncoder::new(&m) { v.push(s0(e.tree().serialize())); } }
@@ -380,7 +409,8 @@ fn seeds_huff_decode(r: &mut Rng) -> Vec<Seed> {
 fn seeds_huff_tree_then_decode(r: &mut Rng) -> Vec<Seed> { seeds_huff_tree(r).into_iter().map(|s| Seed { bytes: s.bytes, len: 20 }).collect() }
 fn seeds_ctx_deser(_r: &mut Rng) -> Vec<Seed> {
     let small = b"abababab abcabc aabbcc";
-    let mut v: Vec<Seed> = CTX.with(|c| c.iter().map(|e| Seed { bytes: e.serialize(), len: 12 }).collect());
+    let mut v: Vec<Seed> = crafted_ctx().into_iter().map(|b| Seed { bytes: b, len: 12 }).collect();
+    v.extend(CTX.with(|c| c.iter().map(|e| Seed { bytes: e.serialize(), len: 12 }).collect::<Vec<_>>()));
     for o in [HuffmanOrder::Order0, HuffmanOrder::Order1, HuffmanOrder::Order2] {
         if let Ok(e) = ContextualHuffmanEncoder::new(small, o) { v.push(Seed { bytes: e.serialize(), len: 12 }); }
     }
@@ -856,9 +886,12 @@ fn seeds_mmapped_input(_r: &mut Rng) -> Vec<Seed> { vec![s0(vec![0x85, 0x01, 4, 
 // emit output without consuming input - the expected-length argument / size field is the only bound
 const MONO: &[u8] = b"aaaaaaaaaaaaaaaaaaaaaaaaaaaaaaaa";
 thread_local! {
-    static CTXDEC_MONO: Vec<ContextualHuffmanDecoder> = (0..3).map(|o| {
+    static CTX_MONO: Vec<ContextualHuffmanEncoder> = (0..3).map(|o| {
         let order = [HuffmanOrder::Order0, HuffmanOrder::Order1, HuffmanOrder::Order2][o];
-        ContextualHuffmanDecoder::new(ContextualHuffmanEncoder::new(MONO, order).unwrap())
+        ContextualHuffmanEncoder::new(MONO, order).unwrap()
+    }).collect();
+    static CTXDEC_MONO: Vec<ContextualHuffmanDecoder> = (0..3).map(|o| {
+        ContextualHuffmanDecoder::new(CTX_MONO.with(|c| ContextualHuffmanEncoder::deserialize(&c[o].serialize()).unwrap()))
     }).collect();
     static RANS_MONO: (Rans64Encoder<ParallelX1>, RansDecoder<ParallelX1>, Rans64Encoder<ParallelX4>, RansDecoder<ParallelX4>) = {
         let mut f = [0u32; 256]; f[b'a' as usize] = 32;
@@ -896,10 +929,13 @@ fn seeds_comp_mono<const A: usize>(_r: &mut Rng) -> Vec<Seed> {
 
 macro_rules! P {
     ($name:expr, $model:expr, $arg:expr, $cheap:expr, $run:expr, $seeds:expr) => {
-        Parser { name: $name, model: $model, has_arg: $arg, cheap: $cheap, run: $run, seeds: $seeds, aux: no_aux }
+        Parser { name: $name, model: $model, has_arg: $arg, cheap: $cheap, run: $run, seeds: $seeds, aux: no_aux, env: 0 }
     };
     ($name:expr, $model:expr, $arg:expr, $cheap:expr, $run:expr, $seeds:expr, $aux:expr) => {
-        Parser { name: $name, model: $model, has_arg: $arg, cheap: $cheap, run: $run, seeds: $seeds, aux: $aux }
+        Parser { name: $name, model: $model, has_arg: $arg, cheap: $cheap, run: $run, seeds: $seeds, aux: $aux, env: 0 }
+    };
+    ($name:expr, $model:expr, $arg:expr, $cheap:expr, $run:expr, $seeds:expr, $aux:expr, $env:expr) => {
+        Parser { name: $name, model: $model, has_arg: $arg, cheap: $cheap, run: $run, seeds: $seeds, aux: $aux, env: $env }
     };
 }
 
@@ -939,18 +975,18 @@ pub fn parsers() -> Vec<Parser> {
         P!("SmartPtrSerializer/Rc<String>", 0, false, true, p_sp_rc, seeds_sp_rc),
         P!("SmartPtrSerializer/Arc<Vec<u64>>", 0, false, true, p_sp_arc, seeds_sp_arc),
         P!("SmartPtrSerializer/Option<Box<String>>", 0, false, true, p_sp_optbox, seeds_sp_optbox),
-        P!("HuffmanTree::deserialize", 0, false, true, p_huff_tree, seeds_huff_tree),
-        P!("HuffmanDecoder::decode", 0, true, false, p_huff_decode, seeds_huff_decode),
-        P!("HuffmanTree::deserialize+decode", 0, true, false, p_huff_tree_then_decode, seeds_huff_tree_then_decode),
-        P!("ContextualHuffmanEncoder::deserialize", 0, false, false, p_ctx_deser, seeds_ctx_deser),
-        P!("ContextualHuffmanEncoder::deserialize+decode", 0, true, false, p_ctx_deser_then_decode, seeds_ctx_deser),
-        P!("ContextualHuffmanDecoder/order0", 0, true, false, p_ctx_decode::<0>, seeds_ctx_decode::<0>),
-        P!("ContextualHuffmanDecoder/order1", 0, true, false, p_ctx_decode::<1>, seeds_ctx_decode::<1>),
-        P!("ContextualHuffmanDecoder/order2", 0, true, false, p_ctx_decode::<2>, seeds_ctx_decode::<2>),
-        P!("ContextualHuffman/decode_x1", 0, true, false, p_ctx_decode_x::<1>, seeds_ctx_decode_x::<1>),
-        P!("ContextualHuffman/decode_x2", 0, true, false, p_ctx_decode_x::<2>, seeds_ctx_decode_x::<2>),
-        P!("ContextualHuffman/decode_x4", 0, true, false, p_ctx_decode_x::<4>, seeds_ctx_decode_x::<4>),
-        P!("ContextualHuffman/decode_x8", 0, true, false, p_ctx_decode_x::<8>, seeds_ctx_decode_x::<8>),
+        P!("HuffmanTree::deserialize", 100, false, true, p_huff_tree, seeds_huff_tree),
+        P!("HuffmanDecoder::decode", 101, true, false, p_huff_decode, seeds_huff_decode, aux_huff),
+        P!("HuffmanTree::deserialize+decode", 102, true, false, p_huff_tree_then_decode, seeds_huff_tree_then_decode),
+        P!("ContextualHuffmanEncoder::deserialize", 103, false, false, p_ctx_deser, seeds_ctx_deser),
+        P!("ContextualHuffmanEncoder::deserialize+decode", 104, true, false, p_ctx_deser_then_decode, seeds_ctx_deser),
+        P!("ContextualHuffmanDecoder/order0", 105, true, false, p_ctx_decode::<0>, seeds_ctx_decode::<0>, aux_ctx::<0>, 1),
+        P!("ContextualHuffmanDecoder/order1", 105, true, false, p_ctx_decode::<1>, seeds_ctx_decode::<1>, aux_ctx::<1>, 2),
+        P!("ContextualHuffmanDecoder/order2", 105, true, false, p_ctx_decode::<2>, seeds_ctx_decode::<2>, aux_ctx::<2>, 3),
+        P!("ContextualHuffman/decode_x1", 108, true, false, p_ctx_decode_x::<1>, seeds_ctx_decode_x::<1>, aux_ctx::<1>, 2),
+        P!("ContextualHuffman/decode_x2", 109, true, false, p_ctx_decode_x::<2>, seeds_ctx_decode_x::<2>, aux_ctx::<1>, 2),
+        P!("ContextualHuffman/decode_x4", 110, true, false, p_ctx_decode_x::<4>, seeds_ctx_decode_x::<4>, aux_ctx::<1>, 2),
+        P!("ContextualHuffman/decode_x8", 111, true, false, p_ctx_decode_x::<8>, seeds_ctx_decode_x::<8>, aux_ctx::<1>, 2),
         P!("fse_decompress", 0, false, false, p_fse, seeds_fse),
         P!("remove_fse_compression", 0, false, false, p_fse_remove, seeds_fse_remove),
         P!("Rans64Decoder/x1", 0, true, false, p_rans1, seeds_rans1),
@@ -992,9 +1028,9 @@ pub fn parsers() -> Vec<Parser> {
         P!("SimdLz77CompressorX8::decompress", 0, false, false, p_slz_x8, seeds_slz_x8),
         P!("decompress_with_simd_lz77", 0, false, false, p_slz_global, seeds_simd_lz77),
         P!("MemoryMappedInput", 0, false, false, p_mmapped_input, seeds_mmapped_input),
-        P!("ContextualHuffmanDecoder/order0/single_symbol_model", 0, true, false, p_ctx_mono::<0>, seeds_ctx_mono::<0>),
-        P!("ContextualHuffmanDecoder/order1/single_symbol_model", 0, true, false, p_ctx_mono::<1>, seeds_ctx_mono::<1>),
-        P!("ContextualHuffmanDecoder/order2/single_symbol_model", 0, true, false, p_ctx_mono::<2>, seeds_ctx_mono::<2>),
+        P!("ContextualHuffmanDecoder/order0/single_symbol_model", 105, true, false, p_ctx_mono::<0>, seeds_ctx_mono::<0>, aux_ctx_mono::<0>, 4),
+        P!("ContextualHuffmanDecoder/order1/single_symbol_model", 105, true, false, p_ctx_mono::<1>, seeds_ctx_mono::<1>, aux_ctx_mono::<1>, 5),
+        P!("ContextualHuffmanDecoder/order2/single_symbol_model", 105, true, false, p_ctx_mono::<2>, seeds_ctx_mono::<2>, aux_ctx_mono::<2>, 6),
         P!("Rans64Decoder/x1/single_symbol_model", 0, true, false, p_rans_mono::<1>, seeds_rans_mono::<1>),
         P!("Rans64Decoder/x4/single_symbol_model", 0, true, false, p_rans_mono::<4>, seeds_rans_mono::<4>),
         P!("Compressor/huffman/decompress/single_symbol_model", 0, false, false, p_comp_mono::<3>, seeds_comp_mono::<3>),
